@@ -76,6 +76,13 @@ def find_predicates(F):
         has_split = False
         seps = set()
         bodies = [inlined(F, fn)] + [inlined(F, cf) for cn, cf in F.fns.items() if cn.startswith(fn.def_ + "::{closure") and cf.kind == "Closure"]
+        # ... or in a private function handed to an adaptor by name (`.map(PathStep::of_segment)`)
+        from ..inline import is_private_helper as _iph
+        for body0 in list(bodies):
+            for _, t0 in body0.calls():
+                for x in t0.get("fn_items", []):
+                    if _iph(F, x) and all(IN_OF(b_) is not F.fns[x] for b_ in bodies):
+                        bodies.append(inlined(F, F.fns[x]))
         owners = {fn.def_} | {cn for cn in F.fns if cn.startswith(fn.def_ + "::{closure")}
         from ..inline import IN_INFO
         for body in bodies:
